@@ -185,3 +185,51 @@ Theorem C16_adjacency_decomposed :
      <-> (q' = p' /\ adj1 n b c d) \/ (d = c /\ In q' (nbrs r pr p'))).
 Proof. exact nbrs_decomp. Qed.
 Print Assumptions C16_adjacency_decomposed.
+
+(* ------------------------------------------------------------------------------------------
+   Arbitrary values (ties included), no pruning: the NUMBER OF LEAVES is preserved - the
+   leaves of the two dendrograms correspond one to one, a leaf's top pixels (its peak
+   plateau) going to the top pixels of its partner.  Through C05: leaves <-> regional maxima,
+   which are a notion of the valued adjacency graph alone (LeafIso.v). *)
+From Dendro Require Import RegMax LeafIso.
+
+Theorem C16_leaves_correspond_with_ties :
+  forall shape shape' per per' g, giso shape per shape' per' g -> allpos shape -> allpos shape' ->
+  forall vals vals' minv,
+    (forall pv, In pv (kept vals minv) -> inrange shape (fst pv)) ->
+    carried g (kept vals minv) (kept vals' minv) ->
+    (forall t, In t (fnodes (run (nbrs shape per) np (order_of (kept vals minv)))) -> is_leaf t = true ->
+       exists t', In t' (fnodes (run (nbrs shape' per') np (order_of (kept vals' minv)))) /\ is_leaf t' = true /\
+                  forall z, topof t z -> topof t' (gpv g z)) /\
+    (forall t', In t' (fnodes (run (nbrs shape' per') np (order_of (kept vals' minv)))) -> is_leaf t' = true ->
+       exists t, In t (fnodes (run (nbrs shape per) np (order_of (kept vals minv)))) /\ is_leaf t = true /\
+                 forall z, topof t z -> topof t' (gpv g z)).
+Proof.
+  intros shape shape' per per' g Hiso Hp Hp' vals vals' minv Hr Hc. split.
+  - exact (grid_leaf_image shape shape' per per' g Hiso Hp Hp' vals vals' minv Hr Hc).
+  - exact (grid_leaf_preimage shape shape' per per' g Hiso Hp Hp' vals vals' minv Hr Hc).
+Qed.
+Print Assumptions C16_leaves_correspond_with_ties.
+
+(* ... one to one: a leaf has one image, and two leaves with the same image are equal (any
+   adjacency graphs, any two sorted processing orders) *)
+Theorem C16_leaf_correspondence_is_one_to_one :
+  forall g adj adj' order order',
+    NoDup (map fst order) -> NoDup (map fst order') -> sorted_desc order -> sorted_desc order' ->
+    (forall a b, In a (map fst order) -> In b (map fst order) -> In b (adj a) -> In a (adj b)) ->
+    (forall a b, In a (map fst order') -> In b (map fst order') -> In b (adj' a) -> In a (adj' b)) ->
+    Permutation order' (map (gpv g) order) ->
+    (forall p q, In p (map fst order) -> In q (map fst order) -> (In (g q) (adj' (g p)) <-> In q (adj p))) ->
+    (forall p q, In p (map fst order) -> In q (map fst order) -> g p = g q -> p = q) ->
+    (forall t t1' t2' z, In t (fnodes (run adj np order)) -> topof t z ->
+       In t1' (fnodes (run adj' np order')) -> In t2' (fnodes (run adj' np order')) ->
+       topof t1' (gpv g z) -> topof t2' (gpv g z) -> t1' = t2') /\
+    (forall t1 t2 t' z1 z2, In t1 (fnodes (run adj np order)) -> In t2 (fnodes (run adj np order)) ->
+       topof t1 z1 -> topof t2 z2 -> In t' (fnodes (run adj' np order')) ->
+       topof t' (gpv g z1) -> topof t' (gpv g z2) -> t1 = t2).
+Proof.
+  intros g adj adj' order order' N N' S S' Y Y' P I J. split.
+  - exact (leaf_image_unique g adj adj' order order' N' S' Y').
+  - exact (leaf_preimage_unique g adj adj' order order' N N' S S' Y Y' P I J).
+Qed.
+Print Assumptions C16_leaf_correspondence_is_one_to_one.
